@@ -124,8 +124,9 @@ func startConn(chainID []byte) (*p2p.Connection, error) {
 func firstLine(v interface{}) string { return strings.SplitN(fmt.Sprint(v), "\n", 2)[0] }
 
 // RunSync builds the scenario, runs A's Syncer once against B and reports the projected observation.
-// after, when non-nil, is called with node A once the sync returned (used by C15 to forge from the resulting tip).
-func RunSync(spec SyncSpec, after func(a *exh.Node)) (obs SyncObs) {
+// pre, when non-nil, is called with node A after the chains are built and before the sync; after, when non-nil, once the
+// sync returned (used by C15 to forge before and after a failing block sync).
+func RunSync(spec SyncSpec, pre, after func(a *exh.Node)) (obs SyncObs) {
 	obs = SyncObs{Spec: spec, Before: []uint64{}, After: []uint64{}, Delivered: []uint64{}, Links: [][2]uint64{}, TempAfter: [][2]uint64{}}
 	cd := &coder{m: map[string]uint64{}}
 	a, err := exh.New(exh.Options{N: spec.N})
@@ -179,6 +180,9 @@ func RunSync(spec SyncSpec, after func(a *exh.Node)) (obs SyncObs) {
 			return obs
 		}
 		link(blk)
+	}
+	if pre != nil {
+		pre(a)
 	}
 	fin, err := a.Finalized()
 	if err != nil {
